@@ -91,32 +91,32 @@ theorem negotiateIkeRequest_cookie_first (s : HSt) (m : Msg) (enc : Bool) (expec
 
 /-- the complete answer of `process_ike_sa_init_request` under load: COOKIE with the expected value, nothing else -/
 theorem processIkeSaInitRequest_cookie (me : XSa) (succ : Option XSa) (m : Msg) (expected : Bytes) (rest : List TVal) (bad : Bool)
-    (ps : List Proposal) (nonce : Bytes) (g : Nat) (ke : Bytes)
+    (ps : List Proposal) (nonce : Bytes) (g : Nat) (ke : Bytes) (sad : List (Bytes × Nat × Bytes))
     (hst : me.core.st = stINITIAL) (hc : me.core.cookie = true)
     (h1 : paySA m false = .ok ps) (h2 : payNonce m false = .ok nonce) (h3 : payKE m false = .ok (g, ke))
     (hbad : ∀ p sp d tl, getNotifies m nCOOKIE false = (p, sp, d) :: tl → d ≠ expected) :
-    let o := runH (processIkeSaInitRequest m) me succ { vals := TVal.bytes expected :: rest, bad := bad }
+    let o := runH (processIkeSaInitRequest m) me succ { vals := TVal.bytes expected :: rest, bad := bad } sad
     o.res = .ikeError (mkNotify 0 nCOOKIE [] expected) ∧ o.me = me ∧ o.succ = succ ∧ o.nl = [] ∧ o.tape.vals = rest := by
   intro o
   have hck : ∀ s : HSt, s.me = me → s.tape.vals = TVal.bytes expected :: rest →
       cookieGate me m s = (.error (excCookie expected), { s with tape := { s.tape with vals := rest } }) :=
     fun s _ ht => cookieGate_refuses me m s expected rest hc ht hbad
-  have : processIkeSaInitRequest m { me := me, succ := succ, tape := { vals := TVal.bytes expected :: rest, bad := bad } } =
-      (.error (excCookie expected), { me := me, succ := succ, tape := { vals := rest, bad := bad } }) := by
+  have : processIkeSaInitRequest m { me := me, succ := succ, tape := { vals := TVal.bytes expected :: rest, bad := bad }, sad := sad } =
+      (.error (excCookie expected), { me := me, succ := succ, tape := { vals := rest, bad := bad }, sad := sad }) := by
     unfold processIkeSaInitRequest negotiateIkeRequest
     simp only [HM.bind_def, checkInStates, getMe, hst, liftE, h1, h2, h3, HM.pure_def, getSlot]
     simp only [stINITIAL, List.contains_cons, List.contains_nil, beq_self_eq_true, Bool.or_false, if_true, HM.pure_def]
     rw [hck _ rfl rfl]
   refine ⟨?_, ?_, ?_, ?_, ?_⟩
-  · show (runH (processIkeSaInitRequest m) me succ { vals := TVal.bytes expected :: rest, bad := bad }).res = _
+  · show (runH (processIkeSaInitRequest m) me succ { vals := TVal.bytes expected :: rest, bad := bad } sad).res = _
     unfold runH; rw [this]; simp [excCookie]
-  · show (runH (processIkeSaInitRequest m) me succ { vals := TVal.bytes expected :: rest, bad := bad }).me = _
+  · show (runH (processIkeSaInitRequest m) me succ { vals := TVal.bytes expected :: rest, bad := bad } sad).me = _
     rw [runH_me, this]
-  · show (runH (processIkeSaInitRequest m) me succ { vals := TVal.bytes expected :: rest, bad := bad }).succ = _
+  · show (runH (processIkeSaInitRequest m) me succ { vals := TVal.bytes expected :: rest, bad := bad } sad).succ = _
     rw [runH_succ, this]
-  · show (runH (processIkeSaInitRequest m) me succ { vals := TVal.bytes expected :: rest, bad := bad }).nl = _
+  · show (runH (processIkeSaInitRequest m) me succ { vals := TVal.bytes expected :: rest, bad := bad } sad).nl = _
     rw [runH_nl, this]
-  · show (runH (processIkeSaInitRequest m) me succ { vals := TVal.bytes expected :: rest, bad := bad }).tape.vals = _
+  · show (runH (processIkeSaInitRequest m) me succ { vals := TVal.bytes expected :: rest, bad := bad } sad).tape.vals = _
     rw [runH_tape, this]
 
 end PyIkev2.Impl
